@@ -7,6 +7,7 @@ import (
 )
 
 func init() {
+	verifRegister("VerifC07_ERepeat", VerifC07_ERepeat)
 	verifRegister("VerifC07_KQq", VerifC07_KQq)
 	verifRegister("VerifC07_EExpand", VerifC07_EExpand)
 	verifRegister("VerifC07_ELexical", VerifC07_ELexical)
@@ -334,5 +335,74 @@ func VerifC07_KGensym() {
 		}
 	}
 	vAssert(!lisp.True(c.Cells[0]), "a gensym symbol is distinct from every symbol the program text contains, also one spelled "+nextName)
+	vCover("end")
+}
+
+
+// The same parsed macro call evaluated several times by one runtime is expanded EVERY time: a macro
+// whose expansion depends on state at expansion time (a global it reads, a counter it bumps, a
+// shape it chooses) gives, on each evaluation, what evaluating a fresh macroexpand of the call
+// gives at that moment.  Three stateful macros x three ways of re-evaluating one call site (a
+// function body called three times, a dotimes body, a recursive function); the state values are
+// symbolic and the expected values are computed here from the macro's definition.
+func VerifC07_ERepeat() {
+	mi := vConcInt(vndChoice("macro", 3))
+	ci := vConcInt(vndChoice("context", 3))
+	g0, v1, v2, d := vndInt("g0"), vndInt("v1"), vndInt("v2"), vndInt("d")
+	// keep the arithmetic away from wrap-around: it is not the subject
+	for _, x := range []int{g0, v1, v2, d} {
+		vAssume(x > -1000000 && x < 1000000)
+	}
+	macros := []string{
+		"(defmacro m (a) (quasiquote (+ (unquote a) (unquote g))))",
+		"(defmacro m (a) (set 'cnt (+ cnt 1)) (quasiquote (+ (unquote a) (unquote cnt))))",
+		"(defmacro m (a) (if (> g 5) (quasiquote (+ 1000 (unquote a))) (quasiquote (- (unquote a) 1000))))",
+	}
+	ctxs := []string{
+		"(defun f (x) (m x)) (list (f 1) (progn (set 'g v1) (f 2)) (progn (set 'g v2) (f 3)))",
+		"(set 'acc ()) (dotimes (i 3) (set 'g (+ g d)) (set 'acc (cons (m i) acc))) (reverse 'list acc)",
+		"(defun lp (n) (if (= n 0) () (progn (set 'g (+ g d)) (cons (m n) (lp (- n 1)))))) (lp 3)",
+	}
+	env := newEnv(nil)
+	for n, v := range map[string]int{"g": g0, "v1": v1, "v2": v2, "d": d, "cnt": 0} {
+		env.PutGlobal(lisp.Symbol(n), lisp.Int(v))
+	}
+	r := env.LoadString("defs", macros[mi])
+	vAssert(r.Type != lisp.LError, "macro definition loads")
+	r = env.LoadString("run", ctxs[ci])
+	vObserve("program", macros[mi]+" "+ctxs[ci])
+	vAssert(r.Type != lisp.LError, "the program runs: "+outcome(r))
+	// the argument values and the state at each of the three evaluations of the call site
+	var args, gs [3]int
+	switch ci {
+	case 0:
+		args = [3]int{1, 2, 3}
+		gs = [3]int{g0, v1, v2}
+	case 1:
+		args = [3]int{0, 1, 2}
+		gs = [3]int{g0 + d, g0 + 2*d, g0 + 3*d}
+	default:
+		args = [3]int{3, 2, 1}
+		gs = [3]int{g0 + d, g0 + 2*d, g0 + 3*d}
+	}
+	vAssert(r.Len() == 3, "three evaluations, three values")
+	for i := 0; i < 3; i++ {
+		var want int
+		switch mi {
+		case 0:
+			want = args[i] + gs[i]
+		case 1:
+			want = args[i] + i + 1
+		default:
+			if gs[i] > 5 {
+				want = 1000 + args[i]
+			} else {
+				want = args[i] - 1000
+			}
+		}
+		got := r.Cells[i]
+		vAssert(got.Type == lisp.LInt && got.Int == want, "each evaluation of the call site is an evaluation of a fresh expansion (the macro body runs once per call, with the state of that moment)")
+	}
+	cleanRuntime(env, "user")
 	vCover("end")
 }
